@@ -171,3 +171,154 @@ Proof.
   - intros g g2 n (-> & _) E. exact E.
   - intros a g g2 bm (-> & _) E. exact E.
 Qed.
+
+(* ======================================================================== *)
+(* C. list bookkeeping                                                        *)
+(* ======================================================================== *)
+Lemma column_at_nth j : forall vals col i,
+  column_at j vals = Ok col -> (i < length vals)%nat -> nth_error col i = nth_error (nth i vals []) j.
+Proof.
+  induction vals as [|l r IH]; intros col i E Hi; cbn [length] in Hi; [lia|].
+  cbn [column_at] in E. destruct (nth_error l j) as [v|] eqn:Ev; [|discriminate].
+  destruct (column_at j r) as [c|] eqn:Ec; cbn [bind] in E; [|discriminate].
+  injection E as <-. destruct i as [|i]; cbn [nth nth_error]; [symmetry; exact Ev|].
+  apply IH; [reflexivity|lia].
+Qed.
+
+Lemma nth_append_col : forall G colv i x,
+  nth_error colv i = Some x -> (i < length G)%nat ->
+  nth i (append_col colv G) [] = nth i G [] ++ [x].
+Proof.
+  unfold append_col. induction G as [|l r IH]; intros colv i x Hx Hi; cbn [length] in Hi; [lia|].
+  destruct colv as [|c cs]; [destruct i; discriminate|].
+  cbn [combine map fst snd]. destruct i as [|i]; cbn [nth nth_error] in *.
+  - injection Hx as <-. reflexivity.
+  - apply IH; [exact Hx|lia].
+Qed.
+
+Lemma upd_nth_mid {A} (f : A -> A) pre x post :
+  upd_nth (length pre) f (pre ++ x :: post) = pre ++ f x :: post.
+Proof.
+  unfold upd_nth. rewrite firstn_app, Nat.sub_diag, firstn_all, firstn_O, app_nil_r.
+  rewrite skipn_app, skipn_all, Nat.sub_diag. reflexivity.
+Qed.
+
+Lemma nth_mid {A} (pre : list A) x post d : nth (length pre) (pre ++ x :: post) d = x.
+Proof. rewrite app_nth2 by lia. rewrite Nat.sub_diag. reflexivity. Qed.
+
+Lemma nth_error_rep {A} (x : A) n i : (i < n)%nat -> nth_error (repeat x n) i = Some x.
+Proof.
+  revert i. induction n as [|n IH]; intros i Hi; [lia|].
+  destruct i as [|i]; [reflexivity|]. cbn [repeat nth_error]. apply IH. lia.
+Qed.
+
+Lemma nth_error_lt {A} (l : list A) i x : nth_error l i = Some x -> (i < length l)%nat.
+Proof. intros H. apply nth_error_Some. congruence. Qed.
+
+Lemma map_res_nth {A B} (f : A -> result B) : forall l l' k v,
+  map_res f l = Ok l' -> nth_error l k = Some v -> exists y, f v = Ok y /\ nth_error l' k = Some y.
+Proof.
+  induction l as [|x r IH]; intros l' k v E Hk; [destruct k; discriminate|].
+  cbn [map_res] in E. destruct (f x) as [y|] eqn:Ey; cbn [bind] in E; [|discriminate].
+  destruct (map_res f r) as [ys|] eqn:Er; cbn [bind] in E; [|discriminate].
+  injection E as <-. destruct k as [|k]; cbn [nth_error] in *.
+  - injection Hk as <-. eauto.
+  - eapply IH; [reflexivity|exact Hk].
+Qed.
+
+Lemma value_seqb_eq a b : value_seqb a b = true -> a = b.
+Proof.
+  destruct a, b; cbn; intros H; try discriminate; try reflexivity.
+  - f_equal. lia.
+  - apply andb_prop in H as [H1 H2]. f_equal; lia.
+  - apply andb_prop in H as [H1 H2]. f_equal; lia.
+  - f_equal. apply bytes_eqb_eq. exact H.
+Qed.
+
+(* ======================================================================== *)
+(* D. what the two ghosts record for one entry                                *)
+(* ======================================================================== *)
+Lemma col_dom_any_cases w ae raws : col_dom_any w ae raws = true ->
+  (1 <= w <= 64)%Z /\
+  forall x, In (Some x) raws -> (0 <= x)%Z /\ ((2 <= w)%Z -> (x <= 2 ^ w - 2)%Z).
+Proof.
+  unfold col_dom_any. intros H. apply orb_prop in H as [H|H].
+  - unfold col_dom_num in H. repeat (apply andb_prop in H as [H ?]).
+    split; [lia|]. intros x Hx. rewrite forallb_forall in H1. specialize (H1 _ Hx). cbn in H1. lia.
+  - apply andb_prop in H as [Hw H]. unfold col_dom_bit1 in H. apply andb_prop in H as [_ Hr].
+    split; [lia|]. intros x Hx. rewrite forallb_forall in Hr. specialize (Hr _ Hx). cbn in Hr. lia.
+Qed.
+
+Lemma view_entry w ae raws k r :
+  col_dom_any w ae raws = true -> onebit_ok w raws = true -> nth_error raws k = Some r ->
+  exists o, nth_error (num_view w raws) k = Some o /\
+    match r with
+    | None => if (w =? 1)%Z then o = Some 1%N else o = None
+    | Some x => o = Some (Z.to_N x)
+    end.
+Proof.
+  intros Hdom Hob Hk. unfold num_view.
+  destruct ((w =? 1)%Z && col_all_none raws) eqn:Hc.
+  - apply andb_prop in Hc as [Hw Hn]. exists (Some 1%N).
+    split; [apply nth_error_rep; exact (nth_error_lt _ _ _ Hk)|].
+    assert (Hr : nth_error (repeat (@None Z) (length raws)) k = Some r)
+      by (rewrite <- (all_none_repeat _ Hn); exact Hk).
+    rewrite (nth_error_rep _ _ _ (nth_error_lt _ _ _ Hk)) in Hr. injection Hr as <-.
+    rewrite Hw. reflexivity.
+  - exists (option_map Z.to_N r). split; [unfold raw_view; apply map_nth_error; exact Hk|].
+    destruct r as [x|]; [reflexivity|]. cbn [option_map].
+    destruct (Z.eqb_spec w 1) as [->|]; [|reflexivity]. exfalso.
+    cbn [andb] in Hc. unfold onebit_ok in Hob. rewrite Hc in Hob. cbn [Z.eqb Pos.eqb andb negb] in Hob.
+    assert (Hex : existsb opt_is_none raws = true).
+    { apply existsb_exists. exists None. split; [exact (nth_error_In _ _ Hk)|reflexivity]. }
+    rewrite Hex in Hob. discriminate.
+Qed.
+
+Lemma missing_for_ok w raw : (1 <= w <= 64)%Z -> missing_for w = Ok raw -> raw = (2 ^ w - 1)%Z.
+Proof.
+  intros Hw. unfold missing_for.
+  destruct (Z.ltb_spec 64 w); [lia|]. destruct (Z.ltb_spec w (-65)); [lia|].
+  destruct (Z.ltb_spec w 0); [lia|]. intros E; injection E as <-. reflexivity.
+Qed.
+
+Lemma numeric_raws_nth b c col ae raws k v :
+  numeric_raws b c col ae = Ok raws -> all_same ae col = true -> nth_error col k = Some v ->
+  exists r, nth_error raws k = Some r /\
+    match v with VNone => r = None | _ => exists x, scaled_int v b c = Ok x /\ r = Some x end.
+Proof.
+  unfold numeric_raws, all_same. intros E Hs Hk. destruct ae.
+  - destruct col as [|v0 rest]; [destruct k; discriminate|].
+    assert (v = v0).
+    { rewrite forallb_forall in Hs. symmetry. apply value_seqb_eq, Hs. exact (nth_error_In _ _ Hk). }
+    subst v0.
+    destruct v;
+      try (destruct (scaled_int _ b c) as [x|] eqn:Ex; cbn [bind] in E; [|discriminate];
+           injection E as <-; exists (Some x);
+           split; [exact (map_nth_error (fun _ => Some x) _ _ Hk)|eauto]).
+    injection E as <-. exists None. split; [exact (map_nth_error (fun _ => None) _ _ Hk)|reflexivity].
+  - destruct (map_res_nth _ _ _ _ _ E Hk) as (y & Ey & Hy). exists y. split; [exact Hy|].
+    destruct v; try (destruct (scaled_int _ b c) as [x|]; cbn [bind] in Ey; [|discriminate]);
+      injection Ey as <-; eauto.
+Qed.
+
+(* the numeric entry: the compressed view and the uncompressed re-reading agree *)
+Lemma num_entry_agree w ae raws k r raw b c :
+  col_dom_any w ae raws = true -> onebit_ok w raws = true -> nth_error raws k = Some r ->
+  match r with None => raw = (2 ^ w - 1)%Z | Some x => raw = x end ->
+  exists o, nth_error (num_view w raws) k = Some o /\
+            num_value b c o = dec_of_raw w raw b c /\ cf_value o = dec_of_raw_cf w raw.
+Proof.
+  intros Hdom Hob Hk Hraw.
+  destruct (view_entry _ _ _ _ _ Hdom Hob Hk) as (o & Ho & Hv). exists o. split; [exact Ho|].
+  destruct (col_dom_any_cases _ _ _ Hdom) as (Hw & Hrange).
+  unfold dec_of_raw, dec_of_raw_cf. destruct r as [x|].
+  - subst o raw. destruct (Hrange x (nth_error_In _ _ Hk)) as (H0 & Hup).
+    assert (Hm : ((1 <? w)%Z && (x =? 2 ^ w - 1)%Z) = false).
+    { destruct (Z.ltb_spec 1 w); [|reflexivity]. cbn [andb]. specialize (Hup ltac:(lia)). lia. }
+    rewrite Hm. cbn [num_value cf_value]. rewrite Z2N.id by lia. split; reflexivity.
+  - subst raw. destruct (Z.eqb_spec w 1) as [->|Hne].
+    + subst o. cbn. split; reflexivity.
+    + subst o. assert (Hm : ((1 <? w)%Z && (2 ^ w - 1 =? 2 ^ w - 1)%Z) = true)
+        by (rewrite Z.eqb_refl; destruct (Z.ltb_spec 1 w); [reflexivity|lia]).
+      rewrite Hm. split; reflexivity.
+Qed.
